@@ -130,6 +130,8 @@ def parse_out(out):
             cur["fix"] = int(t[1])
         elif t[0] == "DC":
             cur["dc"] = int(t[1])
+        elif t[0] == "AB":
+            cur["ab"] = cur.get("ab", 0) + int(t[1])
         elif t[0] == "J":
             cur["J"].setdefault(t[1], {})[t[2]] = [float.fromhex(x) for x in t[3:]]
         elif t[0] == "TXT":
@@ -215,6 +217,8 @@ def classify(c, feature, prec, src=None):
     diffs = c["D"] + [("gen3:" + d[0],) + d[1:] for d in c["D3"]]
     if prec < 17:
         diffs = [d for d in diffs if not DERIVED.match(d[0].replace("gen3:", ""))]
+        if src and re.search(r"alignfree=\"true\"|<freejoint[^>]*align=\"true\"", src):
+            diffs = [d for d in diffs if d[0].replace("gen3:", "") != "body_quat"]   # orientation of the inertia frame: no bound
     if not diffs:
         return None
     worst = max(rel(d[4], d[5]) if d[1] >= 0 else math.inf for d in diffs)
@@ -555,7 +559,7 @@ def run(ctx):
                               theorem="property statement (oracle on implementation output)", signature={"class": "core", "stage": "crash-or-hang"})
             else:
                 ctx.broken.append(("correspondence", "driver c32_roundtrip failed (rc=%s)" % rc, err[-500:]))
-    stats = {"ok": 0, "skip": 0, "violating": 0, "dontcare_components": 0, "text_not_fixed_point": 0}
+    stats = {"ok": 0, "skip": 0, "violating": 0, "dontcare_components": 0, "text_not_fixed_point": 0, "decided_by_length_scale_bound": 0}
     by_class = {}
     nontrivial = set()
     for (cid, kind, prec, feature, cmd, info) in jobs:
@@ -563,6 +567,7 @@ def run(ctx):
         if c is None:
             continue
         stats["dontcare_components"] += c["dc"]
+        stats["decided_by_length_scale_bound"] += c.get("ab", 0)
         if c["fix"] == 0:
             stats["text_not_fixed_point"] += 1
         if c["status"].startswith("skip"):
